@@ -97,6 +97,7 @@ Proof.
     unfold uncapture in H. destruct (get k_saved_showwarning s) as [[| | |]|]; inversion H; reflexivity.
   - eapply end_patch_heap; eauto.
   - destruct (mem_n (e_hook e) (meta s)); inversion H; reflexivity.
+  - destruct (rev (meta s)); inversion H; reflexivity.
   - match type of H with (if ?c then _ else _) = _ => destruct c end; inversion H; reflexivity.
 Qed.
 Lemma run_fsteps_heap : forall e tk steps exc s, heap (fst (run_fsteps e tk steps exc s)) = heap s.
@@ -133,7 +134,7 @@ Proof.
 Qed.
 Lemma run_op_content : forall v0 e o s, novalue (Some v0) s -> hget v0 (heap (run_op e o s)) = hget v0 (heap s).
 Proof.
-  intros v0 e o s H; destruct o as [k [|n|k']|k|d|n kd|n|d|k c]; cbn [run_op]; auto.
+  intros v0 e o s H; destruct o as [k [|n|k']|k|d|n kd|n|d|k c|fr h]; cbn [run_op]; auto.
   - destruct (get k' s); reflexivity.
   - rewrite do_chdir_heap; reflexivity.
   - apply mutate_content; exact H.
@@ -377,7 +378,7 @@ Proof.
   assert (GV1 : get k_showwarning s1 = Some v) by (rewrite (G1 _ IS); exact GV).
   assert (GW1 : get k_saved_showwarning s1 = Some w) by (rewrite (G1 _ IV); exact GW).
   assert (MEM : mem_n hook (meta sp) = true).
-  { unfold sp, body. cbn [fst]. rewrite run_ops_meta.
+  { unfold sp, body. cbn [fst]. apply run_ops_meta_mem.
     rewrite (proj1 (proj2 (proj2 (do_chdir_facts _ _ _ _)))).
     assert (M6 : meta s6 = meta s4 ++ [hook]).
     { pose proof (patch_enter_rest inner_patched inner_base (with_meta (meta s4 ++ [e_hook e]) s4)) as R6.
